@@ -779,6 +779,9 @@ func TestCheck(t *testing.T) {
 	for _, v := range variants(res.Thorough()) {
 		search(t, res, v)
 	}
+	if fx.TwinUnavailable {
+		res.Note("twin keys asked for (VERIF_FX_TWIN) but the sim wallet's account type could not be given a chosen key: this pass ran with ordinary keys")
+	}
 	res.Extra["exhaustive"] = true
 	res.Counters["distinct_nontrivial"] = res.Counters["states"]
 	res.Counters["evaluations"] = res.Counters["transitions"]
